@@ -96,7 +96,7 @@ Qed.
 Theorem handles_refine_ledger c s o :
   handles (snd (hstep c s o)) = hspec_step (handles s) o (fst (hstep c s o)).
 Proof.
-  destruct o as [o|dir i ok|dir i h|p t ex ok|plus i h host ents|kind i h|root]; cbn [hstep].
+  destruct o as [o|dir i ok|dir i h fl|p t ex ok|plus i h host ents|kind i h|root]; cbn [hstep].
   - destruct (step (hc c) (ino s) o) as [r i1]. reflexivity.
   - destruct (if dir then no_opendir c else no_open c); [reflexivity|].
     destruct (negb (open_inode_ok s i)); [reflexivity|]. destruct (negb ok); reflexivity.
@@ -125,7 +125,7 @@ Theorem new_handle_fresh c s o h :
   h = next_handle s /\ hget s h = None /\ next_handle (snd (hstep c s o)) = h + 1.
 Proof.
   intros B NW. unfold U64MAX in NW.
-  destruct o as [o|dir i ok|dir i h0|p t ex ok|plus i h0 host ents|kind i h0|root]; cbn [hstep].
+  destruct o as [o|dir i ok|dir i h0 fl|p t ex ok|plus i h0 host ents|kind i h0|root]; cbn [hstep].
   - destruct (step (hc c) (ino s) o) as [r i1]. cbn. intros [X|[j X]]; discriminate.
   - destruct (if dir then no_opendir c else no_open c); [cbn; intros [X|[j X]]; discriminate|].
     destruct (negb (open_inode_ok s i)); [cbn; intros [X|[j X]]; discriminate|].
@@ -171,7 +171,7 @@ Theorem hstep_inv c s o :
   HInv s -> next_handle s < U64MAX -> HInv (snd (hstep c s o)).
 Proof.
   intros I NW. pose proof I as (B & HB & ND & CS). unfold U64MAX in NW.
-  destruct o as [o|dir i ok|dir i h|p t ex ok|plus i h host ents|kind i h|root]; cbn [hstep].
+  destruct o as [o|dir i ok|dir i h fl|p t ex ok|plus i h host ents|kind i h|root]; cbn [hstep].
   - destruct (step (hc c) (ino s) o) as [r i1]. cbn [snd]. apply inv_with_ino; exact I.
   - destruct (if dir then no_opendir c else no_open c); [exact I|].
     destruct (negb (open_inode_ok s i)); [exact I|]. destruct (negb ok); [exact I|]. cbn [snd].
@@ -234,7 +234,7 @@ Qed.
 Theorem leaked_const c s o : HInv s -> leaked (snd (hstep c s o)) = leaked s.
 Proof.
   intros I. pose proof I as (B & HB & ND & CS).
-  destruct o as [o|dir i ok|dir i h|p t ex ok|plus i h host ents|kind i h|root]; cbn [hstep].
+  destruct o as [o|dir i ok|dir i h fl|p t ex ok|plus i h host ents|kind i h|root]; cbn [hstep].
   - destruct (step (hc c) (ino s) o) as [r i1]. reflexivity.
   - destruct (if dir then no_opendir c else no_open c); [reflexivity|].
     destruct (negb (open_inode_ok s i)); [reflexivity|]. destruct (negb ok); reflexivity.
@@ -257,7 +257,7 @@ Lemma next_handle_step c s o : next_handle s < U64MAX ->
   next_handle s <= next_handle (snd (hstep c s o)) /\ next_handle (snd (hstep c s o)) <= next_handle s + 1.
 Proof.
   intros NW. unfold U64MAX in NW.
-  destruct o as [o|dir i ok|dir i h|p t ex ok|plus i h host ents|kind i h|root]; cbn [hstep].
+  destruct o as [o|dir i ok|dir i h fl|p t ex ok|plus i h host ents|kind i h|root]; cbn [hstep].
   - destruct (step (hc c) (ino s) o) as [r i1]. cbn. lia.
   - destruct (if dir then no_opendir c else no_open c); [cbn; lia|].
     destruct (negb (open_inode_ok s i)); [cbn; lia|]. destruct (negb ok); cbn; [lia|]. rewrite wrap_h_small by lia. lia.
@@ -388,7 +388,7 @@ Lemma hstep_ino c s o :
   ino (snd (hstep c s o)) = ino s \/
   exists o', ino_op o = Some o' /\ ino (snd (hstep c s o)) = snd (step (hc c) (ino s) o').
 Proof.
-  destruct o as [o|dir i ok|dir i h|p t ex ok|plus i h host ents|kind i h|root]; cbn [hstep ino_op].
+  destruct o as [o|dir i ok|dir i h fl|p t ex ok|plus i h host ents|kind i h|root]; cbn [hstep ino_op].
   - right. exists o. split; [reflexivity|]. destruct (step (hc c) (ino s) o). reflexivity.
   - left. destruct (if dir then no_opendir c else no_open c); [reflexivity|].
     destruct (negb (open_inode_ok s i)); [reflexivity|]. destruct (negb ok); reflexivity.
@@ -416,7 +416,7 @@ Lemma mount_live_step c s o :
   mount_live s = ifh (hc c) -> hop_wf c o -> mount_live (snd (hstep c s o)) = ifh (hc c).
 Proof.
   intros M W.
-  destruct o as [o|dir i ok|dir i h|p t ex ok|plus i h host ents|kind i h|root]; cbn [hstep].
+  destruct o as [o|dir i ok|dir i h fl|p t ex ok|plus i h host ents|kind i h|root]; cbn [hstep].
   - destruct (step (hc c) (ino s) o). exact M.
   - destruct (if dir then no_opendir c else no_open c); [exact M|].
     destruct (negb (open_inode_ok s i)); [exact M|]. destruct (negb ok); exact M.
@@ -524,8 +524,8 @@ Proof.
 Qed.
 
 Definition ex15_hist : list hop :=
-  [HInode (OLookup 1 (Some ex_a)); HOpen false 2 true; HUse 4 2 1; HRelease false 2 1;
-   HCreate 1 (Some ex_a) true true; HRelease false 2 2; HCreate 1 (Some d9_fifo) true false;
+  [HInode (OLookup 1 (Some ex_a)); HOpen false 2 true; HUse 4 2 1; HRelease false 2 1 true;
+   HCreate 1 (Some ex_a) true true; HRelease false 2 2 false; HCreate 1 (Some d9_fifo) true false;
    HInode (OForget 2 2); HDestroy d9_root].
 Lemma ex15_ok :
   let c := mkHC d9_cfg false false in
@@ -536,4 +536,17 @@ Lemma ex15_ok :
   fds (snd (hrun c (h_fresh c d9_root) ex15_hist)) = fds (h_fresh c d9_root).
 Proof.
   cbn zeta. split; [reflexivity|]. split; [repeat constructor|]. vm_compute. auto.
+Qed.
+
+(* RELEASE / RELEASEDIR of a pair the client holds always releases it (handle, descriptor, cookie, recorded flags),
+   whatever the flush flag says: release() allocates no descriptor, it cannot fail with EMFILE *)
+Theorem release_always_releases c s (dir : bool) i h fl :
+  (if dir then no_opendir c else no_open c) = false -> handle_get s h i = true ->
+  fst (hstep c s (HRelease dir i h fl)) = HUnit /\
+  hget (snd (hstep c s (HRelease dir i h fl))) h = None /\
+  mget N.eqb (cookies (snd (hstep c s (HRelease dir i h fl)))) h = None /\
+  fds (snd (hstep c s (HRelease dir i h fl))) = fds s - 1.
+Proof.
+  intros M G. cbn [hstep]. rewrite M, G. cbn [fst snd]. unfold hget; cbn.
+  repeat split; rewrite nnget_del, N.eqb_refl; reflexivity.
 Qed.
